@@ -238,3 +238,46 @@ func H_C15_RecoverReady(v *verifrt.T) {
 	v.Assert(seen > 0, "recovery consulted the log")
 	v.Reach("recovered")
 }
+
+func init() {
+	verifrt.Register("H_C08_Received", H_C08_Received)
+}
+
+// H_C08_Received (C08.O5): the answer to 'how many of these parts did you
+// receive' counts leading parts only: with any subset of the two parts of a
+// file on record, Received([p0,p1]) = n implies p0..p(n-1) are on record.
+func H_C08_Received(v *verifrt.T) {
+	size := v.Int64("size")
+	v.Assume(size >= 2)
+	v.Assume(size <= 4096)
+	m := v.Int64("split")
+	v.Assume(1 <= m)
+	v.Assume(m < size)
+	h1 := v.Version("v1", size)
+	e := newEnv(v)
+	have0 := v.Choose("first-part-on-record", 2) == 1
+	have1 := v.Choose("second-part-on-record", 2) == 1
+	if have0 {
+		v.Assert(e.sendPart("a", "", h1, size, 0, m, "v1") == nil, "part received")
+	}
+	if have1 {
+		v.Assert(e.sendPart("a", "", h1, size, m, size, "v1") == nil, "part received")
+	}
+	if have0 && have1 {
+		v.Quiesce() // complete: validated and delivered
+	}
+	mt := v.Now().Add(-time.Hour)
+	n := e.s.Received([]sts.Binned{
+		&vBinned{name: "a", hash: h1, size: size, beg: 0, end: m, t: mt},
+		&vBinned{name: "a", hash: h1, size: size, beg: m, end: size, t: mt},
+	})
+	want := 0
+	if have0 {
+		want = 1
+		if have1 {
+			want = 2
+		}
+	}
+	v.Assert(n == want, "C08.O5 the receiver reports exactly the number of leading parts it has on record")
+	v.Reach("answered")
+}
